@@ -1,0 +1,50 @@
+//go:build verif
+
+// Contracts for the deductive verifier in /verif (govc).  This file contains
+// only comments: with the build tag off it is not compiled, with it on it
+// compiles to nothing.  Syntax (Gobra-like, one clause per `//@` line):
+//
+//	//@ func <name>                 start of a function contract
+//	//@ tags C03 C05                properties the function's obligations count for
+//	//@ mode int|bv                 integer encoding(s) the function is verified in
+//	//@ requires / ensures[label] <expr>
+//	//@ modifies <items>            frame: c.field, mem(slice), region(x), fields(p), *
+//	//@ loop <n> invariant|decreases|modifies ...   (n = source order of the loops)
+//	//@ assert at call:<callee>#<k>[label]: <expr>
+//	//@ ghost at exit|before <pt>|after <pt> [when <c>]: <ghostfield> := <expr>
+//
+// Expressions are Go expressions plus old(e), forall(i, lo, hi, P), imp, iff,
+// ite, region(x), off(x) and specification functions declared with specfn.
+
+package websocket
+
+// ---------------------------------------------------------------------------
+// util.go
+
+//@ func skipSpace
+//@ tags C07 C12 C14
+//@ ensures[suffix] region(rest) == region(s) && off(rest) + len(rest) == off(s) + len(s) && len(rest) <= len(s)
+//@ ensures[skipped] forall(i, 0, len(s) - len(rest), httpOWS(s[i]))
+//@ ensures[stop] len(rest) == 0 || !httpOWS(rest[0])
+//@ loop 1 invariant 0 <= i && i <= len(s)
+//@ loop 1 invariant forall(k, 0, i, httpOWS(s[k]))
+//@ loop 1 decreases len(s) - i
+
+//@ func nextToken
+//@ tags C07 C12 C14
+//@ ensures[split] region(token) == region(s) && region(rest) == region(s) && off(token) == off(s) && off(rest) == off(s) + len(token) && len(token) + len(rest) == len(s)
+//@ ensures[tok] forall(i, 0, len(token), httpTok(s[i]))
+//@ ensures[stop] len(rest) == 0 || !httpTok(rest[0])
+//@ loop 1 invariant 0 <= i && i <= len(s)
+//@ loop 1 invariant forall(k, 0, i, httpTok(s[k]))
+//@ loop 1 decreases len(s) - i
+
+//@ func equalASCIIFold
+//@ tags C07 C12 C13 C14
+//@ ensures[C13.fold.sound] imp(result, len(s) == len(t) && forall(i, 0, len(s), lower(s[i]) == lower(t[i])))
+//@ ensures[C13.fold.complete] imp(len(s) == len(t) && forall(i, 0, len(s), lower(s[i]) == lower(t[i])), result)
+//@ loop 1 invariant region(s) == region(old(s)) && off(s) + len(s) == off(old(s)) + len(old(s)) && len(s) <= len(old(s))
+//@ loop 1 invariant region(t) == region(old(t)) && off(t) + len(t) == off(old(t)) + len(old(t)) && len(t) <= len(old(t))
+//@ loop 1 invariant len(old(s)) - len(s) == len(old(t)) - len(t)
+//@ loop 1 invariant forall(k, 0, len(old(s)) - len(s), lower(old(s)[k]) == lower(old(t)[k]))
+//@ loop 1 decreases len(s) + len(t)
